@@ -1760,6 +1760,16 @@ class FunctionVerifier:
             return z3.Or(*[item.t == z3.StringVal(s) for s in container.t]) if container.t else z3.BoolVal(False)
         raise VCError(f"'in' on {container.ty} not supported at {self.where(node)}")
 
+    def _old_with_bound(self, ctx):
+        """the old state, with the integer variables bound by enclosing quantifiers visible (old.l[i].f under forall i)"""
+        extra = {k: v for k, v in ctx.env.items() if k not in ctx.old.env and v.kind() == "int"}
+        if not extra:
+            return ctx.old
+        env = dict(ctx.old.env)
+        env.update(extra)
+        return Ctx(env, ctx.old.heap, spec=True, old=ctx.old.old, result=ctx.old.result, fuel=ctx.old.fuel,
+                   entry=ctx.old.entry)
+
     def _mark_root(self, e, ctx):
         r = e
         while isinstance(r, (ast.Attribute, ast.Subscript)):
@@ -1800,7 +1810,7 @@ class FunctionVerifier:
             return v
         if ctx.spec and self._rooted_at_old(e) and "old" not in ctx.env:
             inner = self._strip_old(e)
-            v = self.eval(inner, ctx.old)
+            v = self.eval(inner, self._old_with_bound(ctx))
             if v.kind() in ("list", "ref"):
                 # snapshot semantics: everything read through an old value is read in the old heap
                 v = V(v.ty, v.t, aux=ctx.old.heap, exact=v.exact)
@@ -1884,7 +1894,7 @@ class FunctionVerifier:
             return self.ev_Subscript(self._retarget(e), sub)
         if ctx.spec and self._rooted_at_old(e) and "old" not in ctx.env:
             # the index expression is evaluated in the current state, the container in the old one
-            base = self.eval(self._strip_old(e.value), ctx.old)
+            base = self.eval(self._strip_old(e.value), self._old_with_bound(ctx))
             return self.subscript(base, e, ctx, ctx.old.heap)
         base = self.eval(e.value, ctx)
         return self.subscript(base, e, ctx, ctx.heap)
